@@ -17,6 +17,7 @@ broken down in several modules if needed.
 """
 
 from math import sqrt
+from copy import deepcopy
 from collections import OrderedDict
 
 import numpy as np
@@ -59,7 +60,8 @@ class FermionOperator(of.FermionOperator):
             return super(FermionOperator, self).__imul__(other)
 
     def __mul__(self, other):
-        return self.__imul__(other)
+        # Out-of-place: operate on a copy so that the operands are left unchanged
+        return deepcopy(self).__imul__(other)
 
     def __iadd__(self, other):
         if isinstance(other, FermionOperator):
@@ -85,19 +87,19 @@ class FermionOperator(of.FermionOperator):
             raise RuntimeError(f"You cannot add FermionOperator and {other.__class__}.")
 
     def __add__(self, other):
-        return self.__iadd__(other)
+        return deepcopy(self).__iadd__(other)
 
     def __radd__(self, other):
-        return self.__iadd__(other)
+        return deepcopy(self).__iadd__(other)
 
     def __isub__(self, other):
         return self.__iadd__(-1. * other)
 
     def __sub__(self, other):
-        return self.__isub__(other)
+        return deepcopy(self).__isub__(other)
 
     def __rsub__(self, other):
-        return -1 * self.__isub__(other)
+        return -1 * deepcopy(self).__isub__(other)
 
     def __eq__(self, other):
         # Additional checks for == operator.
